@@ -144,9 +144,9 @@ def freshness_items(repo):
     fu = repo.func(f"{LS}.update_workspace_file")
     uf = shape.of(repo, f"{LS}.update_workspace_file")
     rm = "if ast_old is not None:\n    self._remove_file_globals(ast_old, filepath)"
-    add = "for key, obj in ast_new.global_dict.items():\n    self.obj_tree[key] = [obj, filepath]"
+    add = "for key, obj in ast_new.global_dict.items():\n    self._add_file_global(key, obj, filepath)"
     ok = (shape.has(uf, rm) and shape.has(uf, add)
-          and shape.before(uf, "self._remove_file_globals(ast_old, filepath)", "self.obj_tree[key] = [obj, filepath]"))
+          and shape.before(uf, "self._remove_file_globals(ast_old, filepath)", "self._add_file_global(key, obj, filepath)"))
     items.append(Item("C10/LangServer.update_workspace_file/ensures.obj_tree_view", "proved" if ok else "refuted",
                       "structural(freshness)", 0.0, where=fu.where(), mode="E", func=fu.qualname, shape=True,
                       detail="the previous version's top-level keys are removed before the new version's are added",
@@ -154,12 +154,28 @@ def freshness_items(repo):
     fr = repo.func(f"{LS}._remove_file_globals")
     rf_ = shape.of(repo, f"{LS}._remove_file_globals")
     ok = (shape.has(rf_, "if entry is None or entry[1] != filepath:\n    continue")
-          and shape.has(rf_, "self.obj_tree.pop(key)") and shape.has(rf_, "self.obj_tree[key] = [other_obj, other_path]")
+          and shape.has(rf_, "self.obj_tree.pop(key)") and shape.has(rf_, "self._add_file_global(key, other_obj, other_path)")
           and shape.has(rf_, "if other_path == filepath or other_file.ast is None:\n    continue"))
     items.append(Item("C10/LangServer._remove_file_globals/ensures.owned_keys_only", "proved" if ok else "refuted",
                       "structural(freshness)", 0.0, where=fr.where(), mode="E", func=fr.qualname, shape=True,
                       detail="only entries owned by the file are removed; a name another file also declares falls back to that file",
                       witness=None if ok else {"reason": "entries of other files are dropped, or a duplicate declaration is not restored"}))
+    # of several files declaring one top-level name the owner is a function of the set of files (the greatest path), not of
+    # the order in which they were read or saved; the start-up index enters its objects the same way
+    fa = repo.func(f"{LS}._add_file_global")
+    af = shape.of(repo, f"{LS}._add_file_global")
+    wi = shape.of(repo, f"{LS}.workspace_init")
+    ok = (shape.has(af, "entry = self.obj_tree.get(key)")
+          and shape.has(af, "if entry is not None and entry[1] is not None and (entry[1] > filepath) and (entry[1] in self.workspace):\n    return")
+          and shape.has(af, "self.obj_tree[key] = [obj, filepath]")
+          and shape.has(wi, "self._add_file_global(key, ast_new.global_dict[key], path)")
+          and not any(isinstance(n, ast.Assign) and isinstance(n.targets[0], ast.Subscript)
+                      and ast.unparse(n.targets[0].value) == "self.obj_tree" for n in ast.walk(repo.func(f"{LS}.workspace_init").node)))
+    items.append(Item("C10/LangServer._add_file_global/ensures.owner_is_a_function_of_the_files", "proved" if ok else "refuted",
+                      "structural(freshness)", 0.0, where=fa.where(), mode="E", func=fa.qualname, shape=True,
+                      detail="a top-level name declared by several files belongs to the one whose path is greatest, at start-up and after "
+                             "every save alike",
+                      witness=None if ok else {"reason": "the owner of a name declared twice depends on the order of reading or saving"}))
     # what Submodule.resolve_link copies onto the implementations of a previous call is taken back before the next lookup
     sm = repo.func(P + "submodule.Submodule.resolve_link")
     undo_at = guard_at = None
